@@ -77,7 +77,7 @@ def plan(tier, seed):
     shards += [{"kind": "settings", "part": i, "parts": 4, "stride": 1} for i in range(4)]
     shards += [{"kind": "optional", "part": 0, "files": 600}]
   else:
-    shards = [{"kind": "grammar", "part": i, "files": 50, "roundtrip_every": 1} for i in range(14)]
+    shards = [{"kind": "grammar", "part": i, "files": 50, "roundtrip_every": 2} for i in range(14)]
     shards += [{"kind": "settings", "part": 0, "parts": 1, "stride": 23}]
     shards += [{"kind": "optional", "part": 0, "files": 100}]
   return shards
@@ -759,6 +759,13 @@ def mech_of(clause, ast):
       f.add("ruby")
     elif x == "ts" and "ts-in-tag" in feats:
       pass
+    elif x.startswith("position,"):
+      f.add("position")
+    elif x.startswith("line:pct-frac"):
+      f.add(x.replace("line:pct-frac", "line:pct"))
+    elif x.startswith("cref,"):
+      f.add("cref")
+      f.add(x)
     else:
       f.add(x)
   f = {x for x in f if not any(y.startswith(x + ",") for y in f)}     # keep the most specific of a hierarchy
@@ -775,46 +782,67 @@ class Reporter:
     self.ctx = ctx
     self.known = {}      # clause -> list of (frozenset(features), mech)
     self.shrinks = 0
+    self.queue = {}     # (clause, features) -> [first finding, its (restricted) AST, multiplicity]
 
   def report(self, finding, text, ast):
+    """Queues a finding (restricted to the cue(s) concerned when it reproduces there); flush() reports."""
+    import collections
     ctx = self.ctx
     clause = finding["clause"]
-    if clause in NO_SHRINK or ctx.replay_mode:
-      mech = clause if clause in NO_SHRINK else mech_of(clause, ast)
-      ctx.violation(mech, f"{finding['what']} | input {text!r}", {"text": text, "ast": ast, "clause": clause,
-                                                                  "config": finding.get("config")})
+    if ctx.replay_mode:
+      ctx.violation(mech_of(clause, ast), f"{finding['what']} | input {text!r}",
+                    {"text": text, "ast": ast, "clause": clause, "config": finding.get("config")})
       return
-    # restrict to the cue(s) concerned first (cheap, and keeps presumption precise)
     sub = ast
     if finding.get("cue") is not None:
       cues = [it for it in ast["items"] if it["k"] == "cue"]
       idx = sorted({finding["cue"]} | ({finding["cue2"]} if finding.get("cue2") is not None else set()))
       cand = G.single_cue_file(cues[idx[0]])
       cand["items"] = [copy.deepcopy(cues[k]) for k in idx]
-      import collections
+      pre = (clause, frozenset(file_features(cand)))
+      if pre in self.queue:
+        self.queue[pre][2] += 1      # same clause, same features, and the first one reproduced in isolation
+        return
       f2, _ = evaluate(G.render_file(cand), cand, collections.Counter(), do_roundtrip=finding.get("config") is not None,
                        only_config=finding.get("config"))
       if any(x["clause"] == clause for x in f2):
-        sub = cand
-    feats = frozenset(file_features(sub))
-    for kf, mech in self.known.get(clause, []):
-      if kf <= feats:
-        ctx.count("presumed-same:" + mech)
+        self.queue[pre] = [finding, cand, 1]
         return
-    if self.shrinks >= self.MAX_SHRINKS:
-      ctx.count("not-minimised:" + clause)
-      return
-    self.shrinks += 1
-    small = shrink(sub, clause, roundtrip_cfg=finding.get("config"))
-    stext = G.render_file(small)
+    key = (clause, frozenset(file_features(sub)))
+    if key in self.queue:
+      self.queue[key][2] += 1
+    else:
+      self.queue[key] = [finding, sub, 1]
+
+  def flush(self):
+    """Minimises and reports the queued findings, most general feature sets first, so that the mech keys do not depend
+    on the order in which the generator happened to produce the witnesses."""
     import collections
-    f3, _ = evaluate(stext, small, collections.Counter(), do_roundtrip=finding.get("config") is not None,
-                     only_config=finding.get("config"))
-    what = next((x["what"] for x in f3 if x["clause"] == clause), finding["what"])
-    mech = mech_of(clause, small)
-    self.known.setdefault(clause, []).append((frozenset(file_features(small)), mech))
-    ctx.violation(mech, f"{what} | minimal input {stext!r}", {"text": stext, "ast": small, "clause": clause,
-                                                             "config": finding.get("config")})
+    ctx = self.ctx
+    order = sorted(self.queue.items(), key=lambda kv: (len(kv[0][1]), sorted(kv[0][1]), kv[0][0]))
+    for (clause, feats), (finding, sub, mult) in order:
+      hit = next((mech for kf, mech in self.known.get(clause, []) if kf <= feats), None)
+      if hit is not None:
+        ctx.count("presumed-same:" + hit, mult)
+        ctx.violation_counts[hit] += mult          # real findings of this clause; only their attribution is presumed
+        continue
+      if self.shrinks >= self.MAX_SHRINKS:
+        ctx.count("not-minimised:" + clause, mult)
+        continue
+      self.shrinks += 1
+      small = shrink(sub, clause, roundtrip_cfg=finding.get("config"))
+      stext = G.render_file(small)
+      f3, _ = evaluate(stext, small, collections.Counter(), do_roundtrip=finding.get("config") is not None,
+                       only_config=finding.get("config"))
+      what = next((x["what"] for x in f3 if x["clause"] == clause), finding["what"])
+      mech = mech_of(clause, small)
+      self.known.setdefault(clause, []).append((frozenset(file_features(small)), mech))
+      ctx.violation(mech, f"{what} | minimal input {stext!r}", {"text": stext, "ast": small, "clause": clause,
+                                                               "config": finding.get("config")})
+      if mult > 1:
+        ctx.count("presumed-same:" + mech, mult - 1)
+        ctx.violation_counts[mech] += mult - 1
+    self.queue = {}
 
 
 def count_classes(ctx, ast):
@@ -864,6 +892,13 @@ def check_file(ctx, rep, text, ast, do_roundtrip):
 
 def run(ctx, params):
   rep = Reporter(ctx)
+  try:
+    _run(ctx, rep, params)
+  finally:
+    rep.flush()
+
+
+def _run(ctx, rep, params):
   kind = params["kind"]
   if kind == "grammar":
     rng = ctx.rng("grammar", params["part"])
